@@ -368,8 +368,23 @@ def check_frame_labels_case(p):
     exp = reference(inp, pykey, p['ascending'])
     area = f"{PID}:Frame.{p['op']}"
     desc = f"{cls.__name__}[{''.join(kinds)} layout {p.get('layout')}] labels {labels}.{p['op']}(ascending={p['ascending']}, key={p['key']})"
+    target = f
+    if p.get('grown'):
+        # the same frame reached by growth: all but the last column built (and their label caches read), the last column added, and the sort is the
+        # FIRST operation after the growth.  `f` (built in one go) is only the reference for the observations.
+        if cls is not sf.FrameGO or rows_sorted or len(labels) < 2:
+            return None, False
+        g = frame_from(arrays[:-1], tuple((1, True) for _ in arrays[:-1]), index=mk_index('Index', ['r0', 'r1', 'r2'], name='iname'),
+                       column_labels=mk_index(cspec, labels[:-1], name='cname'), cls=cls, name='fname')
+        g.columns.values
+        if hier:
+            for d_ in range(g.columns.depth):
+                g.columns.values_at_depth(d_)
+        g[labels[-1]] = arrays[-1]
+        target = g
+        desc = 'grown by one column, then ' + desc
     try:
-        meth = getattr(f, p['op'])
+        meth = getattr(target, p['op'])
         r = meth(ascending=p['ascending'], key=fn) if fn is not None else meth(ascending=p['ascending'])
     except Exception as e:
         if hier and type(e).__name__ == 'ErrorInitIndex' and not tree_form([l for l, _ in exp]):
@@ -386,6 +401,7 @@ KEYCOL = {
     'k2': ('U', ['a', 'b', 'B']),
     'k3': ('f', [-1.5, 2.0, 0.0]),
     'k4': ('b', [False, True]),
+    'k5': ('i', [2**53 + 1, 2**53, 2**53 + 2]),      # int64 keys that only an exact integer comparison tells apart (not representable in float64)
 }
 
 
@@ -548,6 +564,9 @@ def cases(tier):
             for b in k2_pats:
                 for c in k3_pats:
                     yield dict(area='frame_values', axis=1, patterns=dict(k1=a, k2=b, k3=c), position=pos)
+    for a in k1_pats:                # an int64 key beyond 2**53 next to a float key: every key column is compared in its own dtype
+        for c in k3_pats:
+            yield dict(area='frame_values', axis=1, patterns=dict(k5=a, k3=c), position=['k5', 'pi', 'k3'])
     for mul in (7, 11):             # long key columns with many ties (single-key sorts go through argsort(kind))
         yield dict(area='frame_values', axis=1, position=['pi', 'k1', 'k2', 'k3'],
                    patterns=dict(k1=[(i * mul + i // 5) % 3 for i in range(LONG)], k2=[(i * mul // 3) % 3 for i in range(LONG)], k3=[(i * 5 + i // mul) % 3 for i in range(LONG)]))
@@ -591,6 +610,9 @@ def expand(case, tier):
                     yield dict(area=area, op=case['op'], pool=case['pool'], order=case['order'], kinds=case['kinds'], layout=[list(x) for x in lay],
                                ascending=asc, key=key, cls='Frame')
         yield dict(area=area, op=case['op'], pool=case['pool'], order=case['order'], kinds=case['kinds'], layout=None, ascending=True, key='none', cls='FrameGO')
+        if not rows_sorted:
+            for asc in (True, False):
+                yield dict(area=area, op=case['op'], pool=case['pool'], order=case['order'], kinds=case['kinds'], layout=None, ascending=asc, key='none', cls='FrameGO', grown=True)
     elif area == 'frame_values':
         axis = case['axis']
         names = [nm for nm in case['position'] if nm in case['patterns']]
@@ -609,6 +631,9 @@ def expand(case, tier):
             by_list = [by] if isinstance(by, str) else by
             numeric = all(KEYCOL[nm][0] in 'if' for nm in by_list)
             keyfns = ['none'] + (['neg-container', 'neg-array', 'abs-array'] if numeric else [])
+            if 'k5' in by_list and len(by_list) > 1:
+                # a key function that consolidates the selected columns itself (c.values) would hand back float64 keys: not the library's doing
+                keyfns = [k for k in keyfns if k in ('none', 'neg-container')]
             if quick:
                 keyfns = keyfns[:1] + keyfns[1 + bi % 3:2 + bi % 3]
             for key in keyfns:
